@@ -1,5 +1,6 @@
 import XlModel.Ref
 import XlModel.RefApi
+import XlModel.RefMulti
 import XlModel.Drv.Util
 namespace XlModel.Drv.C20
 open XlModel XlModel.Ref XlModel.Drv
@@ -17,6 +18,29 @@ def specR (s : List Char) : String :=
   match parseRangeStrict s with
   | some (a, b, c, d) => s!"S={a},{b},{c},{d}"
   | none => "S=none"
+
+def insertSorted (x : Int) : List Int → List Int
+  | [] => [x]
+  | y :: ys => if x < y then x :: y :: ys else if x == y then y :: ys else y :: insertSorted x ys
+
+/-- `cells` grouped by column, columns ascending, rows in insertion order -/
+def showFlat (cells : List Cell) : String :=
+  let cols := cells.foldl (fun acc p => insertSorted p.1 acc) []
+  if cols.isEmpty then "-" else
+  ";".intercalate (cols.map fun c =>
+    toString c ++ ":" ++ ",".intercalate ((colOf cells c).map fun p => toString p.2))
+
+def parseCells (s : String) : Option (List Cell) :=
+  if s == "-" then some [] else
+  (s.splitOn ";").mapM fun t =>
+    match t.splitOn "," with
+    | [a, b] => match parseInt? a, parseInt? b with
+      | some x, some y => some (x, y)
+      | _, _ => none
+    | _ => none
+
+def parseRefs (s : String) : Option (List (List Char)) :=
+  if s == "none" then some [] else (s.splitOn ",").mapM unhexS
 
 def step (w : List String) : String :=
   match w with
@@ -46,6 +70,24 @@ def step (w : List String) : String :=
       | some ref => "A " ++ hexS ref ++ " U0"
       | none => "R"
     | _, _ => "bad-op"
+  | ["inrng", hc, hr] => match unhexS hc, unhexS hr with
+    | some c, some r => showE (fun (b : Bool) => if b then "1" else "0") (checkCellInRangeRef c r)
+    | _, _ => "bad-op"
+  | ["flat", h] => match unhexS h with
+    | some s => showE showFlat (flatSqref s)
+    | none => "bad-op"
+  | ["squash", cs] => match parseCells cs with
+    | some cells =>
+      let out := squashSqref cells
+      if out.isEmpty then "-" else ",".intercalate (out.map hexS)
+    | none => "bad-op"
+  | ["anchor", rs, hc] => match parseRefs rs, unhexS hc with
+    | some refs, some c => showE hexS (mergeParseWith refs c)
+    | _, _ => "bad-op"
+  | ["overlap", a, b, c, d, e, f, g, h] =>
+    match [a, b, c, d, e, f, g, h].mapM parseInt? with
+    | some [a, b, c, d, e, f, g, h] => if isOverlap (a, b, c, d) (e, f, g, h) then "1" else "0"
+    | _ => "bad-op"
   | ["paths", h] => match unhexS h with
     | some s => String.ofList (pathsOp s)
     | none => "bad-op"
